@@ -173,6 +173,24 @@ def mk (k : Kind) (keys : List String) (items : List Val) (written : Bool) : Com
   (.ok (.node s.next k keys items),
    { next := s.next + 1, writes := if written then s.next :: s.writes else s.writes })
 
+/-- An in-place write (`x.append(..)`, `x[k] = v`, `x.update(..)`, `x.pop(k)`, `dict.__init__(x, ..)`): the object the
+variable `x` holds gets new content.  The write is logged under the identity **the target value carries** — whatever
+object flowed into that variable: a container the code created itself, or its argument. -/
+def fill (target : Val) (keys : List String) (items : List Val) : Comp := fun s =>
+  match target with
+  | .node i k _ _ => (.ok (.node i k keys items), { s with writes := i :: s.writes })
+  | _ => (.error (.unmodelled "in-place write to an atom"), s)
+
+/-- `x = K(); … ; x.<stores>`: create a container, compute what goes into it, store it into `x` in place.
+(`result = []` … `result.append(..)`; `result = {}` … `result[name] = ..`; the call's `**kwargs` … `kwargs.update(_d)`.) -/
+def newThenFill (k : Kind) (body : St → Except Err (List String × List Val) × St) : Comp := fun s =>
+  match mk k [] [] false s with
+  | (.error e, s1) => (.error e, s1)
+  | (.ok x, s1) =>
+    match body s1 with
+    | (.error e, s2) => (.error e, s2)
+    | (.ok (ks, xs), s2) => fill x ks xs s2
+
 /-! ### copy_value — functional.py:21-29 -/
 
 mutual
@@ -540,37 +558,60 @@ inductive Style where
   | from_   -- `Cls.__from__(data)`   (init_dataclass)
   deriving DecidableEq, Repr
 
-/-- Build an instance of data class `k` from the name/value pairs the parser returned:
-`cls.__new__` (instance + its `__dict__`), the call's own `kwargs` dict, the parser's result dict,
-`set_attributes` (cls.py:418-452: pops no_output keys from the result, stores every value in
-`__dict__`), `Schema.__post_init__` (`dict.__init__(self, values)`).  All four containers are
-allocated by this call and written in place. -/
-def mkInstance (k : Nat) (d : Decl) (vals : List (String × Val)) : Comp := fun s =>
-  let inst := s.next          -- cls.__new__(cls)
-  let attrs := s.next + 1     -- inst.__dict__
-  let kwargs := s.next + 2    -- **kwargs of __init__
-  let result := s.next + 3    -- the parser's result dict
-  let out := vals.filter (fun p => !(d.fields.any (fun f => f.name == p.1 && f.noOutput)))
-  let attrsNode := Val.node attrs .dict (vals.map (·.1)) (vals.map (·.2))
-  let items := if d.kind == .schema then out else []
-  (.ok (.node inst (.inst k) ("__dict__" :: items.map (·.1)) (attrsNode :: items.map (·.2))),
-   { next := s.next + 4, writes := inst :: attrs :: kwargs :: result :: s.writes })
+/-- the items of a container -/
+def Val.kids : Val → List Val
+  | .node _ _ _ xs => xs
+  | _ => []
 
-/-- what the body of a decorated function receives, as the harness records it (`{'a': a, ..}`, a dict the
-body itself builds); `parse_params` allocates and fills its own `parsed_args` / `parsed_kwargs`. -/
-def mkBinding (vals : List (String × Val)) : Comp := fun s =>
-  (.ok (.node (s.next + 2) .dict (vals.map (·.1)) (vals.map (·.2))),
-   { next := s.next + 3, writes := s.next :: (s.next + 1) :: (s.next + 2) :: s.writes })
+def itemsOf : Val → List String × List Val
+  | .node _ _ ks xs => (ks, xs)
+  | _ => ([], [])
 
-/-- `init_dataclass(cls, data)` / `cls(**data)` for a dict-like `data` with the given entries -/
+/-- `parser(kwargs)`: the parser's result dict — `result = {}` … `result[name] = parsed / default` (base.py parse_data) -/
+def parseInto (rec : Ty → Val → Comp) (ro : ROpts) (d : Decl) (keys : List String) (items : List Val) : Comp :=
+  newThenFill .dict (fun s => match parseData rec ro d keys items s with
+    | (.error e, s1) => (.error e, s1)
+    | (.ok vals, s1) => (.ok (vals.map (·.1), vals.map (·.2)), s1))
+
+/-- `init_dataclass(cls, data)` / `cls(**data)` / `cls(d, **kw)` for the entries the parse sees.  The objects involved,
+each created by this call and then written *through the variable that holds it*:
+* the call's own `**kwargs` dict, filled by the call protocol / `kwargs.update(_d)` (cls.py `__init__`);
+* `inst = cls.__new__(cls)` and its `__dict__`;
+* `values = parser(kwargs)`, the parser's result dict;
+* `set_attributes(values, inst)` (cls.py): `values.pop(key)` for no_output fields, `inst.__dict__[attname] = value`;
+* `Schema.__post_init__`: `dict.__init__(inst, values)`. -/
 def initWith (rec : Ty → Val → Comp) (ro : ROpts) (E : Env) (k : Nat) (keys : List String) (items : List Val) : Comp := fun s =>
   match E[k]? with
   | Option.none => (.error (.unmodelled "no such class"), s)
   | some d =>
     if d.kind == .func then (.error (.unmodelled "function used as a type"), s) else
-    match parseData rec ro d keys items s with
+    match newThenFill .dict (fun s0 => (.ok (keys, items), s0)) s with           -- kwargs
     | (.error e, s1) => (.error e, s1)
-    | (.ok vals, s1) => mkInstance k d vals s1
+    | (.ok kwargs, s1) =>
+    match mk (.inst k) [] [] false s1 with                                        -- inst = cls.__new__(cls)
+    | (.error e, s2) => (.error e, s2)
+    | (.ok inst0, s2) =>
+    match mk .dict [] [] false s2 with                                            -- inst.__dict__
+    | (.error e, s3) => (.error e, s3)
+    | (.ok attrs0, s3) =>
+    match parseInto rec ro d (itemsOf kwargs).1 (itemsOf kwargs).2 s3 with        -- values = parser(kwargs)
+    | (.error e, s4) => (.error e, s4)
+    | (.ok values, s4) =>
+    let vks := (itemsOf values).1
+    let vxs := (itemsOf values).2
+    let outP := (vks.zip vxs).filter (fun p => !(d.fields.any (fun f => f.name == p.1 && f.noOutput)))
+    match fill values (outP.map (·.1)) (outP.map (·.2)) s4 with                   -- values.pop(key)   (no_output)
+    | (.error e, s5) => (.error e, s5)
+    | (.ok values', s5) =>
+    match fill attrs0 vks vxs s5 with                                             -- inst.__dict__[attname] = value
+    | (.error e, s6) => (.error e, s6)
+    | (.ok attrs, s6) =>
+    let shown := if d.kind == .schema then itemsOf values' else ([], [])
+    fill inst0 ("__dict__" :: shown.1) (attrs :: shown.2) s6                       -- dict.__init__(inst, values)
+
+/-- what the body of a decorated function receives, as the harness records it: `{'a': a, ..}`, a dict literal the
+body itself builds from its arguments -/
+def mkBinding (vals : List (String × Val)) : Comp := mk .dict (vals.map (·.1)) (vals.map (·.2)) false
 
 /-- a set with more than one element: its iteration order is not modelled -/
 def unorderedSrc : Val → Bool
@@ -590,31 +631,35 @@ def conv (E : Env) (o : Opts) : Nat → Ty → Val → Comp
         match convBare o k v s with
         | (.error e, s1) => (.error e, s1)
         | (.ok (.node _ _ _ items), s1) =>
-            let s2 : St := { next := s1.next + 1, writes := s1.next :: s1.writes }     -- `result = []`
-            match mapC (conv E o fuel t) items s2 with
+            -- `result = []` … `result.append(apply(item, ..))` for every item
+            match newThenFill .list (fun s2 => match mapC (conv E o fuel t) items s2 with
+                | (.error e, s3) => (.error e, s3)
+                | (.ok items', s3) => (.ok ([], items'), s3)) s1 with
             | (.error e, s3) => (.error e, s3)
-            | (.ok items', s3) =>
-              if k == .list then (.ok (.node s1.next .list [] items'), s3)            -- `return result`
-              else mkSeq k items' false s3                                            -- `cls.__origin__(value)`
+            | (.ok r, s3) =>
+              if k == .list then (.ok r, s3)                                          -- `return result`
+              else mkSeq k r.kids false s3   -- `cls.__origin__(value)`
         | (.ok _, s1) => (.error (.unmodelled "origin transform returned an atom"), s1)
     | .map t =>
         match convBare o .dict v s with
         | (.error e, s1) => (.error e, s1)
         | (.ok (.node _ _ keys items), s1) =>
-            let s2 : St := { next := s1.next + 1, writes := s1.next :: s1.writes }     -- `result = {}`
-            match mapC (conv E o fuel t) items s2 with
-            | (.error e, s3) => (.error e, s3)
-            | (.ok items', s3) => (.ok (.node s1.next .dict keys items'), s3)
+            -- `result = {}` … `result[key] = val` for every entry
+            newThenFill .dict (fun s2 => match mapC (conv E o fuel t) items s2 with
+                | (.error e, s3) => (.error e, s3)
+                | (.ok items', s3) => (.ok (keys, items'), s3)) s1
         | (.ok _, s1) => (.error (.unmodelled "origin transform returned an atom"), s1)
     | .tup ts =>
         if unorderedSrc v then (.error (.unmodelled "tuple from a set (iteration order)"), s) else
         match convBare o .tuple v s with
         | (.error e, s1) => (.error e, s1)
         | (.ok (.node _ _ _ items), s1) =>
-            let s2 : St := { next := s1.next + 1, writes := s1.next :: s1.writes }   -- `result = []`
-            match zipC (conv E o fuel) ts items s2 with
+            -- `result = []` … `result.append(..)` per prefix item, then `cls.__origin__(result)`
+            match newThenFill .list (fun s2 => match zipC (conv E o fuel) ts items s2 with
+                | (.error e, s3) => (.error e, s3)
+                | (.ok items', s3) => (.ok ([], items'), s3)) s1 with
             | (.error e, s3) => (.error e, s3)
-            | (.ok items', s3) => mk .tuple [] items' false s3                       -- `cls.__origin__(result)`
+            | (.ok r, s3) => mk .tuple [] r.kids false s3
         | (.ok _, s1) => (.error (.unmodelled "origin transform returned an atom"), s1)
     | .con t lg mx mn =>
         -- Rule.parse (rule.py:1681-1749): transform to the origin (+ args), then the validators on the result
@@ -672,9 +717,11 @@ def callWith (optsOf : List (Option Opts) → Nat → Opts) (ro : ROpts) (E : En
       -- All four wrappers create their RuntimeContext *inside* the call (func.py:562, 801, 893, 937), resolve the
       -- parameters through the same `get_params`/`parse_params`, and differ only in when that happens (at the call
       -- when `eager`, else at the first `await` / `next`): `fkind` and `eager` do not enter the outcome.
-      match parseData (conv E o fuelDefault) {} { d with dfs := false } keys items s with
+      -- `parse_params`: `parsed_kwargs = self.parse_data(kwargs, ..)` — a result dict like any other
+      match parseInto (conv E o fuelDefault) {} { d with dfs := false } keys items s with
       | (.error e, s1) => (.error e, s1)
-      | (.ok vals, s1) =>
+      | (.ok pk, s1) =>
+        let vals := (itemsOf pk).1.zip (itemsOf pk).2
         match d.ret with
         | Option.none => mkBinding vals s1
         | some (fname, ty) =>
@@ -732,19 +779,24 @@ def writeL (i : Nat) (f : Kind → List String → List Val → Option (List Str
   | v :: vs => v.write i f :: writeL i f vs
 end
 
-/-- `Schema.copy()` — schema.py:463-469 after the fix: a new instance, `dict.update(obj, self)`, and a
-*new* attribute dict with the same entries. -/
+/-- `Schema.copy()` — schema.py `copy` after the fix: `obj = cls.__new__(cls)`; `dict.update(obj, self)` — an in-place
+write to `obj`; `obj.__dict__ = dict(self.__dict__)` — a *new* attribute dict with the same entries. -/
 def schemaCopy : Val → Comp
   | .node _ (.inst k) ("__dict__" :: ks) (.node _ .dict aks avs :: xs), s =>
-      (.ok (.node s.next (.inst k) ("__dict__" :: ks) (.node (s.next + 1) .dict aks avs :: xs)),
-       { next := s.next + 2, writes := s.next :: (s.next + 1) :: s.writes })
+      match mk (.inst k) [] [] false s with                       -- obj = self.__class__.__new__(self.__class__)
+      | (.error e, s1) => (.error e, s1)
+      | (.ok obj, s1) =>
+        match mk .dict aks avs false s1 with                      -- dict(self.__dict__)
+        | (.error e, s2) => (.error e, s2)
+        | (.ok ad, s2) => fill obj ("__dict__" :: ks) (ad :: xs) s2      -- dict.update(obj, self); obj.__dict__ = …
   | _, s => (.error (.unmodelled "copy of a non-Schema"), s)
 
 /-- the behaviour before the fix: `obj.__dict__ = self.__dict__` -/
 def schemaCopyLegacy : Val → Comp
   | .node _ (.inst k) ("__dict__" :: ks) (.node a .dict aks avs :: xs), s =>
-      (.ok (.node s.next (.inst k) ("__dict__" :: ks) (.node a .dict aks avs :: xs)),
-       { next := s.next + 1, writes := s.next :: s.writes })
+      match mk (.inst k) [] [] false s with
+      | (.error e, s1) => (.error e, s1)
+      | (.ok obj, s1) => fill obj ("__dict__" :: ks) (.node a .dict aks avs :: xs) s1
   | _, s => (.error (.unmodelled "copy of a non-Schema"), s)
 
 /-- `d[fname] = v` on a plain dict (an instance's `__dict__`) -/
